@@ -36,7 +36,7 @@ func init() {
 				{Name: "cut-enum", Variant: "plain", Cases: m, Run: c07enum, CaseTimeout: 120 * time.Second, Required: []string{"cuts_injected", "frames_checked"}},
 				{Name: "queued-cancel", Variant: "race", Cases: n / 10, Run: c07queuedCancel, CaseTimeout: 120 * time.Second, Required: []string{"queued_cancel_cases", "requests_cancelled_while_queued"}},
 				{Name: "tcp", Variant: "race", Cases: n / 2, Run: c07tcp, CaseTimeout: 180 * time.Second, Required: []string{"tcp_scenarios", "tcp_slow_reader_scenarios", "tcp_frames_checked", "tcp_failed_writes"}},
-				{Name: "mixed", Variant: "race", Cases: n, Run: c07mixed, CaseTimeout: 180 * time.Second, Required: []string{"cuts_injected", "frames_checked", "coalesced_scenarios", "direct_scenarios", "stall_scenarios", "huge_frame_scenarios", "flood_scenarios"}},
+				{Name: "mixed", Variant: "race", Cases: n, Run: c07mixed, CaseTimeout: 180 * time.Second, Required: []string{"cuts_injected", "frames_checked", "coalesced_scenarios", "direct_scenarios", "stall_scenarios", "repeated_stall_scenarios", "huge_frame_scenarios", "flood_scenarios"}},
 			}
 		},
 	})
@@ -130,6 +130,14 @@ func c07mixed(c *runner.Ctx, i int) {
 		// frame and a *timeout* error (a net.Error that calls itself temporary)
 		ec.stallAt = int64(100 + r.Intn(12000))
 		ec.writeTimeout = time.Duration(5+r.Intn(30)) * time.Millisecond
+		if r.Intn(2) == 0 {
+			// the peer stalls again a little further on (inside the same frame, if it is a large one)
+			ec.stallMore = []int64{ec.stallAt + int64(200+r.Intn(30000))}
+			if r.Intn(2) == 0 {
+				ec.stallMore = append(ec.stallMore, ec.stallMore[0]+int64(200+r.Intn(30000)))
+			}
+			c.Add("repeated_stall_scenarios", 1)
+		}
 		c.Add("stall_scenarios", 1)
 	default:
 		ec.writeCutAt = int64(100 + r.Intn(12000))
